@@ -437,8 +437,8 @@ type c19World struct {
 	left    map[int]bool
 }
 
-// kind "ab" has kind "a" as a prefix; n2 registers no kind at all (it can still host cluster-spawned actors)
-var c19Kinds = [][]string{{"a"}, {"a", "ab"}, {}}
+// kind "ab" has kind "a" as a prefix; n2 registers no kind at all (it can still host cluster-spawned actors) (n1 registers its kinds in non-alphabetical order)
+var c19Kinds = [][]string{{"a"}, {"ab", "a"}, {}}
 
 func newC19World(n int) *c19World {
 	w := &c19World{members: map[int]bool{}, active: map[string]string{}, left: map[int]bool{}}
@@ -637,6 +637,31 @@ func (w *c19World) enabledOps() []c19Op {
 			continue
 		}
 		if nmem > 1 {
+			// one membership update in which this member leaves AND a node that was never a member joins
+			// (a provider that publishes snapshots reports both at once)
+			for _, j := range w.nodes {
+				j := j
+				if w.members[j.idx] || w.left[j.idx] {
+					continue
+				}
+				ops = append(ops, c19Op{"swap(" + n.id + "->" + j.id + ")", func(w *c19World) {
+					delete(w.members, n.idx)
+					w.left[n.idx] = true
+					w.members[j.idx] = true
+					for id, host := range w.active {
+						if host == n.addr {
+							delete(w.active, id)
+						}
+					}
+					var to []*c19Node
+					for _, m := range w.nodes {
+						if w.members[m.idx] {
+							to = append(to, m)
+						}
+					}
+					w.run(func() { w.snapshot(to) })
+				}})
+			}
 			ops = append(ops, c19Op{"leave(" + n.id + ")", func(w *c19World) {
 				delete(w.members, n.idx)
 				w.left[n.idx] = true
